@@ -351,6 +351,18 @@ func baseCfg(auth, enc security.SecurityLevel, methods []security.AuthMethod, ci
 		TrustDomain:    "verif.domain",
 		Command:        security.NoCommand,
 	}
+	for _, m := range methods {
+		if m == security.AuthSSL {
+			// throw-away CA + "localhost" server certificate (see c19Certs)
+			ca, cert, key := c19Certs()
+			c.CAFile = ca
+			if server {
+				c.CertFile, c.KeyFile = cert, key
+			} else {
+				c.ServerName = "localhost"
+			}
+		}
+	}
 	if server {
 		c.TokenPoolSigningKeyFile = e.PoolKeyFile
 		c.TokenSigningKeyDir = e.KeyDir
